@@ -41,6 +41,10 @@ pub trait HalScratchDefaults<BE: Backend>: Backend {
             std::mem::align_of::<T>()
         );
         let (take_slice, rem_slice) = take_slice_aligned(scratch.data.as_mut(), len * std::mem::size_of::<T>());
+        if len == 0 {
+            // An empty take may sit at the (unaligned) end of an exhausted buffer: do not reinterpret that pointer as `*mut T`.
+            return (&mut [], Self::scratch_from_bytes_default(rem_slice));
+        }
 
         // SAFETY: `take_slice` is aligned to `DEFAULTALIGN` which is a multiple of
         // `align_of::<T>()` (asserted above). Length is `len * size_of::<T>()` bytes,
@@ -61,9 +65,17 @@ fn take_slice_aligned(data: &mut [u8], take_len: usize) -> (&mut [u8], &mut [u8]
     let self_len: usize = data.len();
 
     let aligned_offset: usize = ptr.align_offset(DEFAULTALIGN);
-    let aligned_len: usize = self_len.saturating_sub(aligned_offset);
 
-    if let Some(rem_len) = aligned_len.checked_sub(take_len) {
+    // The alignment padding itself has to fit: with fewer than `aligned_offset` bytes left the pointer must not be
+    // moved past the buffer. Only an empty take can still be served, from the end of the buffer.
+    if take_len == 0 && aligned_offset > self_len {
+        let (_, end) = data.split_at_mut(self_len);
+        return end.split_at_mut(0);
+    }
+
+    if let Some(aligned_len) = self_len.checked_sub(aligned_offset)
+        && let Some(rem_len) = aligned_len.checked_sub(take_len)
+    {
         // SAFETY: `aligned_offset + take_len <= self_len`, so both sub-slices are
         // within bounds. They are non-overlapping because `rem` starts immediately
         // after `take`. The original `data` borrow is split into two disjoint parts.
@@ -76,6 +88,7 @@ fn take_slice_aligned(data: &mut [u8], take_len: usize) -> (&mut [u8], &mut [u8]
             (take_slice, rem_slice)
         }
     } else {
+        let aligned_len: usize = self_len.saturating_sub(aligned_offset);
         panic!("Attempted to take {take_len} from scratch with {aligned_len} aligned bytes left");
     }
 }
